@@ -33,6 +33,8 @@ type compiler struct {
 	// identities whose bases are being resolved, to detect circular derivation
 	identitiesInProgress map[*Identity]struct{}
 
+	// imported modules whose identities are compiled, imports may be mutual
+	importsCompiled map[*Module]struct{}
 }
 
 func (c *compiler) module(y *Module) error {
@@ -82,6 +84,13 @@ func sortedImportPrefixes(imports map[string]*Import) []string {
 }
 
 func (c *compiler) compileImport(m *Module) error {
+	if _, done := c.importsCompiled[m]; done {
+		return nil
+	}
+	if c.importsCompiled == nil {
+		c.importsCompiled = make(map[*Module]struct{})
+	}
+	c.importsCompiled[m] = struct{}{}
 	for _, ident := range sortedIdentityNames(m.identities) {
 		if err := c.compile(m.identities[ident]); err != nil {
 			return err
